@@ -741,7 +741,15 @@ def remap_by_types(
                     base_obj.method,
                     r_node,
                     # (`inspect.signature` looks through wrappers - `functools.cache` - too)
-                    has_receiver=inspect.isfunction(inspect.unwrap(base_obj.method))
+                    # A bound method (a classmethod) has its receiver already - `unwrap` would look
+                    # through it to the function underneath, `signature` does not. A method
+                    # inherited from one of python's own types (`tuple.count` of a NamedTuple) is
+                    # a method descriptor: it lists its receiver just like a function.
+                    has_receiver=not inspect.ismethod(base_obj.method)
+                    and (
+                        inspect.isfunction(inspect.unwrap(base_obj.method))
+                        or inspect.ismethoddescriptor(base_obj.method)
+                    )
                     and not isinstance(
                         inspect.getattr_static(base_obj.method_class, m_name, None), staticmethod
                     ),
